@@ -277,6 +277,106 @@ def corruptions(rep):
     return n
 
 
+def send_path_job(args):
+    """The frames the host writes through its REAL paths (not _write_frame called by the harness): send_data -- first transmission,
+    the repeat triggered by a NAK, the repeat triggered by the acknowledgement timeout -- the ACK written for an accepted DATA
+    frame, the NAK for a rejected one, the reset request.  One protocol object per job, so frame and acknowledgement numbers
+    run through all their values; every write is compared byte for byte with the reference encoder."""
+    start, payloads = args
+    import asyncio
+
+    from bellows.ash import AshProtocol
+    from mc.env.ashworld import patch_time
+    from mc.vloop import VLoop
+
+    loop = VLoop().enter()
+    out = []
+    n = 0
+    try:
+        patch_time(loop)
+        rec = Recorder()
+        proto = AshProtocol(rec)
+        tr = FakeTransport(loop, proto)
+        proto.connection_made(tr)
+        loop.settle()
+        frm = ack = 0
+
+        def wrote(k0):
+            return b"".join(w for _, w in tr.writes[k0:])
+
+        def expect(k0, ref, what, payload):
+            nonlocal n
+            n += 1
+            got = wrote(k0)
+            if got != ref_ash.wire(ref):
+                m = check_body(got, False)
+                out.append((f"C03|send-path|{what.split(' ')[0]}", f"{what} (frm={frm}, ack={ack}, payload {len(payload)} bytes {payload[:8].hex()}): wrote {got.hex()}, "
+                            f"reference {ref_ash.wire(ref).hex()}" + (f" [{m}]" if m else ""),
+                            {"kind": "send-path", "start": start, "payloads": [q.hex() for q in payloads]}))
+                return False
+            return True
+
+        # bring the two counters to the job's starting point with real traffic
+        for k in range(start):
+            proto.data_received(ref_ash.wire(ref_ash.enc_data(k % 8, 0, frm, b"\x00\x01\x02\x03")))
+            ack = (ack + 1) % 8
+        loop.settle()
+        for i, payload in enumerate(payloads):
+            k0 = len(tr.writes)
+            task = loop.create_task(proto.send_data(payload))
+            loop.settle()
+            ok = expect(k0, ref_ash.enc_data(frm, 0, ack, payload), "first transmission", payload)
+            k0 = len(tr.writes)
+            proto.data_received(ref_ash.wire(ref_ash.enc_nak(frm)))
+            loop.settle()
+            ok = expect(k0, ref_ash.enc_data(frm, 1, ack, payload), "repeat after a NAK", payload) and ok
+            k0 = len(tr.writes)
+            loop.fire_timers()
+            loop.settle()
+            ok = expect(k0, ref_ash.enc_data(frm, 1, ack, payload), "repeat after the acknowledgement timeout", payload) and ok
+            proto.data_received(ref_ash.wire(ref_ash.enc_ack((frm + 1) % 8)))
+            loop.settle()
+            if not task.done() or task.exception() is not None:
+                if ok:
+                    out.append(("C03|send-path|send-did-not-complete", f"send of payload {payload[:8].hex()} did not complete after its ACK: {task!r}",
+                                {"kind": "send-path", "start": start, "payloads": [q.hex() for q in payloads]}))
+                break
+            frm = (frm + 1) % 8
+            # an accepted DATA frame from the peer (every third send: the acknowledgement number moves against the frame number)
+            if i % 3 == 0:
+                k0 = len(tr.writes)
+                proto.data_received(ref_ash.wire(ref_ash.enc_data(ack, 0, frm, payload[:5] + b"\x00\x00\x00")))
+                ack = (ack + 1) % 8
+                loop.settle()
+                expect(k0, ref_ash.enc_ack(ack), "ACK for an accepted DATA frame", payload)
+                k0 = len(tr.writes)
+                proto.data_received(ref_ash.wire(ref_ash.enc_data((ack + 2) % 8, 0, frm, b"\x09\x09\x09\x09")))
+                loop.settle()
+                expect(k0, ref_ash.enc_nak(ack), "NAK for an out-of-sequence DATA frame", payload)
+        k0 = len(tr.writes)
+        proto.send_reset()
+        n += 1
+        if wrote(k0) != bytes([ref_ash.CAN]) + ref_ash.wire(ref_ash.enc_rst()):
+            out.append(("C03|send-path|reset", f"reset request wrote {wrote(k0).hex()}, expected CANCEL + RST", {"kind": "send-path", "start": start, "payloads": []}))
+    except Exception as e:  # noqa
+        import traceback
+
+        out.append((f"C03|send-path|raise|{type(e).__name__}", f"real send path raised {type(e).__name__}: {e} ({traceback.format_exc()[-300:]})",
+                    {"kind": "send-path", "start": start, "payloads": [q.hex() for q in payloads]}))
+    finally:
+        loop.shutdown()
+    return n, out[:4]
+
+
+def send_path_jobs(tier):
+    pl = [p for n in range(0, 201) for _, p in patterns(n)]
+    # 7 payloads per job: with a different starting offset per job every payload family meets changing frame / acknowledgement numbers
+    jobs = [(j % 8, pl[i:i + 7]) for j, i in enumerate(range(0, len(pl), 7))]
+    if tier == "thorough":
+        jobs = [((st + k) % 8, ps) for st, ps in jobs for k in range(8)]
+    return jobs
+
+
 def main(tier: str) -> int:
     rep = report.Report("C03", tier, "exploration")
     cases = list(data_cases(tier))
@@ -290,6 +390,12 @@ def main(tier: str) -> int:
         nd += cnt
         for key, msg, rp in errs:
             rep.add_violation(key, msg, {"world": "c03", **rp})
+    ns = 0
+    sj = send_path_jobs(tier)
+    for cnt, errs in (explore.pool().imap_unordered(send_path_job, sj) if explore.nworkers() > 1 else map(send_path_job, sj)):
+        ns += cnt
+        for key, msg, rp in errs:
+            rep.add_violation(key, msg, {"world": "c03", **rp})
     no = other_frames(rep)
     nc = classification(rep)
     nf = corruptions(rep)
@@ -301,12 +407,16 @@ def main(tier: str) -> int:
             rep.add_violation(f"C03|stuff|{v:#04x}", f"_stuff_bytes({v:#04x}) = {s.hex()} != {ref_ash.stuff(bytes([v])).hex()}", {"world": "c03", "kind": "stuff", "value": v})
     distinct = len({(c[0], c[1], c[2]) for c in cases}) + len({(c[3], c[4]) for c in cases})
     rep.coverage = {
-        "evaluations": nd + no + nc + nf + 256,
+        "evaluations": nd + no + nc + nf + 256 + ns,
         "distinct_nontrivial": distinct + no + nf,
         "rule": "DATA: control fields x payload length x 5 payload patterns (thorough: full product 8x2x8x201x5; quick: all 128 control values x 13 boundary lengths + 4 control values x every length 0..200); "
                 "ACK/NAK: res x nRdy x ackNum; RST; RSTACK/ERROR x 256 codes; 256 control bytes x plausible data fields; every 1- and 2-bit flip of 7 short frames; "
                 "non-trivial = distinct (control value) + distinct (length,pattern) + every non-DATA frame and every corruption",
         "exhaustive": tier == "thorough",
+        "send_path_frames": ns,
+        "send_path_rule": "frames written by the real send_data (first transmission, repeat after a NAK, repeat after the acknowledgement timeout), by the receiver "
+                          "(ACK for an accepted, NAK for an out-of-sequence DATA frame) and by send_reset on a hand-stepped loop, 7 payloads per protocol object "
+                          "so that frame and acknowledgement numbers take all values, each write compared byte for byte with the reference encoder",
         "data_frames": nd, "other_frames": no, "classification_cases": nc, "bit_flips": nf,
         "samples": [{"DATA": list(cases[17][:5]), "payload": cases[17][5].hex()}, {"DATA": list(cases[-1][:5]), "payload": cases[-1][5][:16].hex() + "..."}],
     }
@@ -319,6 +429,11 @@ def replay(data) -> int:
     if data.get("kind") == "DATA":
         p = bytes.fromhex(data["payload"])
         errs = data_case((data["frm"], data["retx"], data["ack"], len(p), "replay", p))
+        for e in errs:
+            print(e[1])
+        return 1 if errs else 0
+    if data.get("kind") == "send-path":
+        n, errs = send_path_job((data["start"], [bytes.fromhex(q) for q in data["payloads"]]))
         for e in errs:
             print(e[1])
         return 1 if errs else 0
